@@ -1,4 +1,5 @@
 import SqlProofs.IdentShape.Contexts
+import SqlProofs.IdentShape.Table.From2a  -- build-order only: the decided lemmas need ~4 GB each, at most four run at a time
 /-! skeleton table, context `ctxFrom2b`: 30 reference spellings, decided by kernel evaluation of the real lexer rules,
 `groupStatement` and `parseIdent` (three chunks of ten) -/
 namespace Sql
